@@ -32,6 +32,8 @@ GTyped(es) == [g |-> "slice", es |-> es, typed |-> TRUE] \* []T of the elements'
 GMap(ps) == [g |-> "map", ps |-> ps]                     \* sequence of [k, v]
 GStruct(fs) == [g |-> "struct", fs |-> fs]               \* sequence of [n, x (exported), v]
 GBad(u) == [g |-> "unsupported", u |-> u]
+GNilSlice == [g |-> "nilslice"]                          \* var s []string: a slice (of length 0), not a nil value
+GNilMap == [g |-> "nilmap"]                              \* var m map[string]int
 Fld(n, x, v) == [n |-> n, x |-> x, v |-> v]
 KV(k, v) == [k |-> k, v |-> v]
 
@@ -64,6 +66,8 @@ Conv(v) ==
                              vs == [i \in 1..Len(ex) |-> Conv(ex[i].v)] IN
                          IF AnyBad(vs, "err") THEN Err("unsupported") ELSE IF AnyBad(vs, "nilptr") \/ AnyBad(vs, "unspec") THEN Unspec
                          ELSE O([i \in 1..Len(vs) |-> [pk |-> ex[i].n, pv |-> vs[i]]])
+    [] v.g = "nilslice" -> A(<<>>)
+    [] v.g = "nilmap" -> O(<<>>)
     [] v.g = "unsupported" -> Err("unsupported")
 \* a nil pointer at the top: a defined result (nil) or an error, never a crash (C09)
 Top(v) == LET c == Conv(v) IN IF c.t = "nilptr" THEN Unspec ELSE c
@@ -123,8 +127,11 @@ BadAt(b) == {b, GPtr(b), GSlice(<<GInt("int", "five"), b>>), GMap(<<KV("k", b)>>
 \* an unsupported value in an UNEXPORTED field is not reachable and is not converted
 HiddenBad == {GStruct(<<Fld("Name", TRUE, GStr("n")), Fld("ch", FALSE, GBad("chan"))>>)}
 
+\* Go's nil slices and nil maps are empty collections (C12: same shape; C02: empty arrays and objects are truthy)
+NilColls == {GNilSlice, GNilMap, GPtr(GNilSlice), GSlice(<<GNilSlice, GNilMap>>), GMap(<<KV("k", GNilSlice), KV("m", GNilMap)>>),
+             GStruct(<<Fld("Tags", TRUE, GNilSlice), Fld("Inner", TRUE, GNilMap), Fld("Name", TRUE, GStr("n"))>>)}
 Values == CASE Family = "scalars" -> Scalars
-            [] Family = "g1" -> G1 \cup NilPtrs \cup CaseKeys
+            [] Family = "g1" -> G1 \cup NilPtrs \cup CaseKeys \cup NilColls
             [] Family = "g2" -> G2
             [] Family = "bad" -> UNION {BadAt(b) : b \in Bads} \cup HiddenBad
 
@@ -136,10 +143,17 @@ Misses(v) == IF v.g = "struct" THEN {[p |-> "." \o f.n, v |-> Err("unexported fi
                                     \cup {[p |-> ".nope", v |-> Err("no such field")]}
              ELSE IF v.g = "map" THEN {[p |-> ".nope", v |-> Err("no such key")], [p |-> "[\"nope\"]", v |-> Err("no such key")]}
              ELSE {}
+\* what a node is, beyond how it prints: its truth value (C02) and, for arrays, its length
+TruthD(v) == IF v.t = "int" /\ "sym" \in DOMAIN v THEN v.sym # "0" ELSE Truthy(v)
+Probes(v, q) == IF q.v.t \in {"err", "unspec", "nilptr"} THEN {}
+                ELSE {[g |-> v, path |-> q.p, probe |-> "truth", expect |-> [kind |-> "out", out |-> IF TruthD(q.v) THEN "T" ELSE "F"], tags |-> <<Family, v.g, "truth">>]}
+                     \cup (IF q.v.t = "arr" THEN {[g |-> v, path |-> q.p, probe |-> "len", expect |-> [kind |-> "out", out |-> ToString(Len(q.v.es))], tags |-> <<Family, v.g, "len">>]}
+                           ELSE {})
 Cases == UNION {LET c == Top(v) IN
-                IF IsErr(c) THEN {[g |-> v, path |-> "", expect |-> [kind |-> "err", why |-> "unsupported value in the data"], tags |-> <<Family, "unsupported">>]}
-                ELSE IF IsUnspec(c) THEN {[g |-> v, path |-> "", expect |-> [kind |-> "any"], tags |-> <<Family, "nil-pointer">>]}
-                ELSE {[g |-> v, path |-> q.p, expect |-> ExpectAt(q), tags |-> <<Family, v.g>>] : q \in Paths(c, 3) \cup Misses(v)}
+                IF IsErr(c) THEN {[g |-> v, path |-> "", probe |-> "", expect |-> [kind |-> "err", why |-> "unsupported value in the data"], tags |-> <<Family, "unsupported">>]}
+                ELSE IF IsUnspec(c) THEN {[g |-> v, path |-> "", probe |-> "", expect |-> [kind |-> "any"], tags |-> <<Family, "nil-pointer">>]}
+                ELSE {[g |-> v, path |-> q.p, probe |-> "", expect |-> ExpectAt(q), tags |-> <<Family, v.g>>] : q \in Paths(c, 3) \cup Misses(v)}
+                     \cup UNION {Probes(v, q) : q \in Paths(c, 3)}
                 : v \in Values}
 
 \* design-level lemma: conversion preserves shape -- every exported field / key / element is reachable
